@@ -1315,6 +1315,8 @@ class FnEmitter:
                     raise TranslateError('let without initialiser')
                 if w is None:
                     w = self.hint_for(pat)
+                if w is None and ex[0] == 'int' and ex[2] is None:
+                    w = self.hints.get('*')         # the function's default type of a bare literal
                 sv = self.ev(ex, env, w)
                 if w is not None and not sv.agg and not isinstance(w, tuple) and sv.ty != w:
                     raise TranslateError('let type mismatch %s vs %s' % (sv.ty, w))
